@@ -613,14 +613,42 @@ pub fn random_rule(rng: &mut Rng, id: &str, absolute: bool) -> RuleSpec {
         _ => {}
     }
     if rng.chance(1, 3) {
-        e.header_filters = vec![(rng.pick(&["add", "override", "remove", "default"]).to_string(), rng.pick(&["X-Robots-Tag", "Cache-Control"]).to_string(), format!("v-{id}"))];
+        let n = if rng.chance(1, 4) { 2 } else { 1 };
+        e.header_filters = (0..n)
+            .map(|_| {
+                (
+                    rng.pick(&["add", "override", "remove", "default", "replace"]).to_string(),
+                    rng.pick(&["X-Robots-Tag", "Cache-Control", "cache-control"]).to_string(),
+                    format!("v-{id}"),
+                )
+            })
+            .collect();
+        // unit ids on header filters: the unit-trace branches of the five header actions
+        e.header_filter_units = rng.chance(2, 3);
     }
     if rng.chance(1, 4) {
-        e.body_filters = vec![if rng.coin() {
-            json!({"action": "append_text", "content": format!("<!-- {id} -->"), "id": format!("u-{id}-text"), "target_hash": "text"})
-        } else {
-            json!({"action": "append_child", "value": format!("<meta name=\"{id}\">"), "element_tree": ["html", "head"], "css_selector": format!("meta[name=\"{id}\"]"), "id": format!("u-{id}-html"), "target_hash": format!("head-{id}")})
-        }];
+        // every body action with and without unit id / target hash / selector (the analyses filter a fixed
+        // skeleton document: selectors here never match it, except through what an earlier filter inserted)
+        let with_id = rng.chance(3, 4);
+        let with_hash = rng.chance(2, 3);
+        let mut f = match rng.below(8) {
+            0 => json!({"action": "append_text", "content": format!("<!-- {id} -->")}),
+            1 => json!({"action": "prepend_text", "content": format!("<!-- pre {id} -->")}),
+            2 => json!({"action": "replace_text", "content": format!("replaced by {id}")}),
+            3 => json!({"action": "append_child", "value": format!("<meta name=\"{id}\">"), "element_tree": ["html", "head"], "css_selector": format!("meta[name=\"{id}\"]")}),
+            4 => json!({"action": "append_child", "value": format!("<meta name=\"{id}\">"), "element_tree": ["html", "head"], "css_selector": if rng.coin() { Value::Null } else { json!("") }}),
+            5 => json!({"action": "prepend_child", "value": format!("<meta name=\"{id}\">"), "element_tree": ["html", "head"], "css_selector": *rng.pick(&[Value::Null, json!("meta[name=\"description\"]"), json!("meta[name=\"nope\"]")])}),
+            6 => json!({"action": "replace", "value": format!("<head><title>{id}</title></head>"), "element_tree": ["html", "head"], "css_selector": *rng.pick(&[Value::Null, json!(""), json!("title"), json!("nope")])}),
+            _ => json!({"action": "append_child", "value": format!("<p>{id}</p>"), "inner_value": format!("{id}"), "element_tree": ["html", "body"], "css_selector": format!("p.{id}")}),
+        };
+        if with_id {
+            let is_text = f.get("content").is_some();
+            f["id"] = json!(format!("u-{id}-{}", if is_text { "text" } else { "html" }));
+            if with_hash {
+                f["target_hash"] = if is_text { json!("text") } else { json!(format!("el-{id}")) };
+            }
+        }
+        e.body_filters = vec![f];
     }
     if rng.chance(1, 5) {
         e.log_override = Some(rng.coin());
